@@ -23,7 +23,7 @@ CONSTANTS VerifyStopsAtFirst,             \* TRUE: verification returns at the f
 
 Blobs == 1..3
 ManifestFaults == {"503", "404", "401-empty-realm", "401-no-quotes", "401-garbage", "empty-digest"}
-HeadFaults == {"503"}
+HeadFaults == {"503", "short-length"}     \* short-length: the HEAD answer announces 7 bytes less than the blob has
 RedirectFaults == {"503", "same-host"}
 ChunkFaults == {"flip", "trunc1", "reset", "503short", "503long", "range-ignored"}
 \* request slots of one attempt: manifest, per blob: head, redirect, first and second chunk request
@@ -55,10 +55,12 @@ FetchL(st, f, lay, i) ==
   ELSE LET b == lay[i] IN
        IF st.final[b] # "absent"                                                        \* cache hit: skipVerify[digest] = true
          THEN FetchL([st EXCEPT !.fetched = IF DupOverwritesSkipVerify THEN @ \ {b} ELSE @], f, lay, i + 1)
-       ELSE IF f[<<"h", b>>] # "ok" /\ st.part[b].done = 0 /\ st.part[b] = NoPart THEN [st EXCEPT !.failed = TRUE]   \* HEAD only without part files
+       ELSE IF f[<<"h", b>>] = "503" /\ st.part[b].done = 0 /\ st.part[b] = NoPart THEN [st EXCEPT !.failed = TRUE]   \* HEAD only without part files
        ELSE IF f[<<"r", b>>] # "ok" THEN [st EXCEPT !.failed = TRUE]      \* 5xx, or a blob served without the redirect to another host
-       ELSE LET p == Downloaded(st.part[b], f, b) IN
-            FetchL([st EXCEPT !.final[b] = IF p.good THEN "good" ELSE "bad", !.part[b] = NoPart, !.fetched = @ \cup {b}], f, lay, i + 1)
+       ELSE LET p == Downloaded(st.part[b], f, b)
+                \* a download planned from a too small announced size ends 7 bytes early: the file cannot have the digest
+                short == f[<<"h", b>>] = "short-length" /\ st.part[b] = NoPart IN
+            FetchL([st EXCEPT !.final[b] = IF p.good /\ ~short THEN "good" ELSE "bad", !.part[b] = NoPart, !.fetched = @ \cup {b}], f, lay, i + 1)
 \* a manifest whose last layer has an empty digest: the layers before it are fetched, then the attempt fails
 Fetch(st, f, dup) ==
   IF f[<<"m", 0>>] = "empty-digest" THEN [FetchL(st, f, SubSeq(Layout(dup), 1, Len(Layout(dup)) - 1), 1) EXCEPT !.failed = TRUE]
